@@ -514,7 +514,7 @@ func c19Client(rng *rand.Rand, id string, stats *c19Stats) string {
 		}()
 	}
 	wg.Wait()
-	if rng.Intn(2) == 0 {
+	if rng.Intn(4) != 0 {
 		// an idle tail: nothing but the connection's own pings is written for a few intervals, so that the last thing the
 		// write loop did before Close is a ping
 		time.Sleep(time.Duration(4+rng.Intn(8)) * time.Millisecond)
